@@ -567,6 +567,73 @@ theorem noisy_bucket (M exact v1 v2 v3 : Nat) :
   have key : ∀ a b, (a + b % M) % M = (a + b) % M := fun a b => by rw [Nat.add_mod, Nat.mod_mod, ← Nat.add_mod]
   rw [key, ← Nat.add_assoc, key]; congr 1; omega
 
+open IpaVerif.Circuits IpaVerif.C07 in
+theorem bitsOf_length : ∀ (w v : Nat), (bitsOf w v).length = w := by
+  intro w; induction w with
+  | zero => intro v; rfl
+  | succ w ih => intro v; simp [bitsOf, ih]
+
+open IpaVerif.Circuits IpaVerif.C07 in
+theorem val_bitsOf : ∀ (w v : Nat), val (bitsOf w v) = v % 2 ^ w := by
+  intro w; induction w with
+  | zero => intro v; simp [bitsOf, val, Nat.mod_one]
+  | succ w ih =>
+    intro v
+    have hb : (v % 2 == 1).toNat = v % 2 := by
+      rcases Nat.mod_two_eq_zero_or_one v with h | h <;> simp [h]
+    simp only [bitsOf, val, ih, hb]
+    rw [Nat.pow_succ, Nat.mul_comm (2 ^ w) 2, Nat.mod_mul]
+
+open IpaVerif.Circuits IpaVerif.C07 in
+/-- **e2e_pass_value** — the executable model of one `apply_laplace_noise_pass` over `B` buckets (`Dp.e2ePass`, the
+model side of suite `c12_noise_e2e`): whenever the stream suffices, the output has one value per bucket and bucket `i`
+is `(noiseᵢ + histᵢ) mod 2^w`, where `noiseᵢ < 2^w` is the placed value of the `i`-th accepted sample
+(`share_mapping`: `noiseᵢ + n ≡ sampleᵢ (mod 2^w)`). Stated as a list relation to avoid indices. -/
+theorem e2e_pass_value (pInt shift w : Nat) : ∀ (hist script out : List Nat),
+    e2ePass pInt shift w (2 ^ w) hist script = some out →
+    List.Forall₂ (fun h o => ∃ sample, sample ≤ 2 * shift ∧
+      o = (symmetricSample (2 ^ w) w sample shift + h) % 2 ^ w) hist out := by
+  intro hist
+  induction hist with
+  | nil => intro script out h; simp [e2ePass] at h; subst h; exact List.Forall₂.nil
+  | cons h hs ih =>
+    intro script out hout
+    simp only [e2ePass] at hout
+    cases hs' : truncatedSample pInt shift (script.length + 1) script with
+    | none => simp [hs'] at hout
+    | some sr =>
+      obtain ⟨sample, rest⟩ := sr
+      simp only [hs'] at hout
+      cases hrec : e2ePass pInt shift w (2 ^ w) hs rest with
+      | none => simp [hrec] at hout
+      | some out' =>
+        simp only [hrec, Option.map_some, Option.some.injEq] at hout
+        subst hout
+        refine List.Forall₂.cons ⟨sample, ?_, ?_⟩ (ih rest out' hrec)
+        · -- accepted samples lie in 0..2n
+          have : ∀ (fuel : Nat) (s : List Nat) (v : Nat) (r : List Nat),
+              truncatedSample pInt shift fuel s = some (v, r) → v ≤ 2 * shift := by
+            intro fuel
+            induction fuel with
+            | zero => intro s v r h; simp [truncatedSample] at h
+            | succ fuel ihf =>
+              intro s v r h
+              simp only [truncatedSample] at h
+              cases hd : doubleGeometric pInt shift s with
+              | none => simp [hd] at h
+              | some dr =>
+                obtain ⟨d, rest⟩ := dr
+                simp only [hd] at h
+                split at h
+                · simp only [Option.some.injEq, Prod.mk.injEq] at h
+                  obtain ⟨rfl, _⟩ := h
+                  omega
+                · exact ihf rest v r h
+          exact this _ _ _ _ hs'
+        · have hp := noisy_bucket_pass [] (bitsOf w (symmetricSample (2 ^ w) w sample shift)) (bitsOf w h)
+            (by rw [bitsOf_length, bitsOf_length])
+          rw [hp, val_bitsOf, val_bitsOf, bitsOf_length, Nat.mod_add_mod, Nat.add_mod_mod]
+
 /-- each draw is generated by exactly the two helpers other than the excluded one, the excluded helper contributes
 the zero share, the three views are consistent and reconstruct (xor of the left components) to the drawn value. -/
 theorem pass_shares (modulus ov sample shift : Nat) (e : Nat) (he : e < 3) :
